@@ -116,7 +116,12 @@ def run(ctx):
     victim = next([nodes[n] for n in w] for w in walks if len(nodes[w[-1]]["reqs"]) >= 2)
     forged = [dict(s) for s in victim]
     forged[-1]["reqs"] = tuple(forged[-1]["reqs"][:-1]) + (forged[-1]["reqs"][-1] + 1,)
-    if rp.replay(forged) is None:
+    try:
+        noticed = rp.replay(forged) is not None
+    except Exception:                     # noqa: BLE001 - a broken driver may also break this replay
+        noticed = True
+        rp.Env.discard()
+    if not noticed:
         raise tlc.MachineryError("binding self-test failed: forged token expectation was not noticed by replay")
 
     # ---- code -> spec: recorded random programs validated by TLC against Trace_Paging.tla
@@ -128,14 +133,18 @@ def run(ctx):
         traces.append(ev)
         kinds.append(kind)
     good = len(traces)
-    victim = next(t for t in traces if len(t) >= 5 and len(t[-1].get("post", {}).get("reqs", [])) >= 2)
-    bad1 = copy.deepcopy(victim)
+    # binding self-test (code -> spec) on a trace synthesized from a specification behaviour, so that it does not depend
+    # on the code under test: accepted as it is; rejected with a forged token, a dropped event, a wrong pure read
+    sw = next(w for w in walks if len(w) >= 7 and len(nodes[w[-1]]["reqs"]) >= 2 and
+              [nodes[n]["act"]["name"] for n in w[1:4]] == ["Execute", "Iter", "Next"] and nodes[w[3]]["act"]["out"])
+    synth = rp.trace_of_states([nodes[n] for n in sw])
+    bad1 = copy.deepcopy(synth)
     bad1[3]["post"]["reqs"] = bad1[3]["post"]["reqs"] + [7]
-    bad2 = copy.deepcopy(next(t for t in traces if len(t) >= 5 and t[1]["e"] == "Iter" and t[2]["e"] == "Next" and t[2]["out"]))
+    bad2 = copy.deepcopy(synth)
     del bad2[2]
-    bad3 = copy.deepcopy(victim)
+    bad3 = copy.deepcopy(synth)
     bad3[-1]["reads"]["more"] = not bad3[-1]["reads"]["more"]
-    traces += [bad1, bad2, bad3]
+    traces += [synth, bad1, bad2, bad3]
     tcfg = tlc.write_cfg(os.path.join(ctx.scratch, "trace.cfg"), init="TraceInit", next="TraceNext", constants=tconsts,
                          invariants=INV, constraints=["Progress"], postcondition="Done", deadlock=False)
     tres, prog = tlc.validate_traces("Trace_Paging", tcfg, traces, ctx.scratch, timeout=1800)
@@ -144,10 +153,11 @@ def run(ctx):
         ctx.violation("invariant %s violated in a state of a recorded execution" % tres.invariant,
                       replay={"trace": [dict(s) for _, s in tres.trace()][-3:]}, signature="trace-inv:%s" % tres.invariant)
         return
-    if prog[good] != 4 or prog[good + 1] > len(bad2) or prog[good + 2] != len(bad3):
-        raise tlc.MachineryError("binding self-test failed: corrupted/dropped/misread trace accepted (%s)" % prog[good:])
-    ctx.note("binding_selftest", {"forged_expectation_noticed": 1, "corrupted_rejected": 1, "dropped_rejected": 1,
-                                  "wrong_read_rejected": 1})
+    if prog[good] != len(synth) + 1 or prog[good + 1] != 4 or prog[good + 2] != 3 or prog[good + 3] != len(bad3):
+        raise tlc.MachineryError("binding self-test failed: synthesized trace rejected or corrupted/dropped/misread trace "
+                                 "accepted (%s, expected %s)" % (prog[good:], [len(synth) + 1, 4, 3, len(bad3)]))
+    ctx.note("binding_selftest", {"forged_expectation_noticed": 1, "synthesized_accepted": 1, "corrupted_rejected": 1,
+                                  "dropped_rejected": 1, "wrong_read_rejected": 1})
     accepted = 0
     by_kind = {}
     for i in range(good):
